@@ -131,7 +131,7 @@ pub fn run(run: &mut Run) {
             }
         }
         bounds.push(json!({"alphabet": name, "alphabet_size": a, "length": len, "seeds": cfg.seeds, "histories": words}));
-        if run.elapsed() > if thorough { 3000.0 } else { 100.0 } {
+        if run.elapsed() > if thorough { 3000.0 } else { 600.0 } {
             run.cap_hit = Some(format!("wall clock after plan {} len {}", name, len));
             break;
         }
